@@ -393,6 +393,10 @@ func hsServerSingle(op string) (string, string, string, bool, string) {
 	if mon == "" && r0.appLeak {
 		mon = "application payload visible in clear on a session reported secure"
 	}
+	if mon == "" {
+		// C04: nothing the peer writes may stand in for "the carrier is encrypted" (c04_inject.go)
+		mon = c04ServerClaimMonitor(t[0] == "1", t[1], r0)
+	}
 	class := strings.SplitN(r0.result, " ", 2)[0]
 	if strings.HasPrefix(r0.result, "refused") {
 		class = "refused-" + strconv.Itoa(r0.status)
@@ -645,6 +649,10 @@ func (hsServer) Gen(r *Rand, tier string, emit func(string)) {
 			}
 		}
 	}
+	// 1b. (C04) handshake messages whose fields CLAIM an encrypted carrier / an established security layer
+	c04GenServerClaims(func(sec, certMode, peer string, a, u hmsg, tail string) {
+		send(sec, certMode, peer, cat(a.bytes(), u.bytes(), []byte(tail)))
+	})
 	// 2. announce mutations
 	methods := []string{socketace.RequestMethod, "x-socketace", "GET", "", " " + socketace.RequestMethod, socketace.RequestMethod + " ", "X-SOCKETACE2", "POST"}
 	versions := []string{"\x00none", "", pv, "v1.0.0", "v1.0.0," + pv, pv + ",v1.0.0", pv + " , v3", "v3 ," + pv, "  " + pv, pv + "  ", pv + ",", "," + pv,
